@@ -74,7 +74,8 @@ func ParseDecimal(in string) (*Decimal, error) {
 		return nil, &ParseError{in, "empty string"}
 	}
 
-	exponent := int32(0)
+	// Kept wide until the fraction digits are accounted for; range-checked below.
+	exponent := int64(0)
 
 	d := strings.IndexAny(in, "Dd")
 	if d != -1 {
@@ -84,12 +85,12 @@ func ParseDecimal(in string) (*Decimal, error) {
 			return nil, &ParseError{in, "unexpected end of input after d"}
 		}
 
-		tmp, err := strconv.ParseInt(exp, 10, 32)
+		tmp, err := strconv.ParseInt(exp, 10, 40)
 		if err != nil {
 			return nil, &ParseError{in, err.Error()}
 		}
 
-		exponent = int32(tmp)
+		exponent = tmp
 		in = in[:d]
 	}
 
@@ -99,8 +100,13 @@ func ParseDecimal(in string) (*Decimal, error) {
 		ipart := in[:d]
 		fpart := in[d+1:]
 
-		exponent -= int32(len(fpart))
+		exponent -= int64(len(fpart))
 		in = ipart + fpart
+	}
+
+	if exponent < math.MinInt32 || exponent > math.MaxInt32 {
+		// The fraction digits lower the exponent; int32 arithmetic would wrap around here.
+		return nil, &ParseError{in, "exponent out of range"}
 	}
 
 	n, ok := new(big.Int).SetString(in, 10)
@@ -111,7 +117,7 @@ func ParseDecimal(in string) (*Decimal, error) {
 
 	isNegZero := n.Sign() == 0 && len(in) > 0 && in[0] == '-'
 
-	return NewDecimal(n, exponent, isNegZero), nil
+	return NewDecimal(n, int32(exponent), isNegZero), nil
 }
 
 // CoEx returns this decimal's coefficient and exponent.
